@@ -815,7 +815,7 @@ func generateObjectConstructor(file *jen.File, itf *idl.InterfaceType) error {
 		jen.Id("service").Qual("github.com/lugu/qiloop/bus", "Service"),
 		jen.Id("impl").Id(implName(itf.Name)),
 	).Params(
-		jen.Id(itf.Name+"Proxy"),
+		jen.Id(signature.CleanName(itf.Name)+"Proxy"),
 		jen.Error(),
 	).Block(
 		jen.Id(`obj := `+itf.Name+`Object(impl)
@@ -836,7 +836,7 @@ func generateObjectConstructor(file *jen.File, itf *idl.InterfaceType) error {
 			jen.Id("service.ServiceID()"),
 			jen.Id("objectID"),
 		),
-		jen.Id(`return Make`+itf.Name+`(session, proxy), nil`),
+		jen.Id(`return Make`+signature.CleanName(itf.Name)+`(session, proxy), nil`),
 	)
 	return nil
 }
